@@ -13,6 +13,8 @@ import ast
 from sa import AnalysisError
 from sa.pattern import pmatch, pfind
 from sa.boolnf import equivalent
+from sa.algebra import Poly, Unsupported
+from sa.indexform import V, Concat, denote
 from sa.astutil import dotted, src, stmt_text, params, find_stmts, calls_in, method_name, const, resolved_return, deep_resolved, if_branches
 
 
@@ -162,6 +164,37 @@ def check_degree_split(model, rep):
            'so polynomials of the requested degree in that direction are no longer integrated exactly', statement='degree-split')
 
 
+def _leaf_calls(table):
+    def leaf(n):
+        if isinstance(n, ast.Call):
+            return table.get(src(n.func))
+        return None
+    return leaf
+
+
+def _simple_bindings(fn):
+    """local name -> bound expression, for names bound exactly once by a plain assignment"""
+    out, seen = {}, {}
+    for n in ast.walk(fn):
+        if isinstance(n, ast.Name) and isinstance(n.ctx, ast.Store):
+            seen[n.id] = seen.get(n.id, 0) + 1
+    for n in ast.walk(fn):
+        if isinstance(n, ast.Assign) and len(n.targets) == 1 and isinstance(n.targets[0], ast.Name) and seen.get(n.targets[0].id) == 1:
+            out[n.targets[0].id] = n.value
+    return out
+
+
+def _denotes(expr, leaf, expected, names=None):
+    """expr denotes the expected index form (sa.indexform); an expression the interpreter cannot read does not"""
+    if expr is None:
+        return False
+    try:
+        got = denote(expr, leaf, names)
+    except Unsupported:
+        return False
+    return got == expected(Poly.atom)
+
+
 def run(model, rep, tier):
     rep.explanation = (
         'R09.1 sibling agreement inside sample._Mul (getindex, get_evaluable_indices, get_evaluable_weights, get_lower_args all use divmod(ielem, self._sample2.nelems); point indices are '
@@ -194,8 +227,9 @@ def run(model, rep, tier):
         ok = bool(c1) and bool(c2) and all(len(c.args) == 1 and src(c.args[0]) == f'{dm}[0]' for c in c1) and all(len(c.args) == 1 and src(c.args[0]) == f'{dm}[1]' for c in c2)
         rep.ob('R09.1', f.key, f.where(), ok, 'factor 1 receives ielem1, factor 2 receives ielem2' if ok else f'_Mul.{name} passes the decomposed indices to the wrong factors', statement=f'{name}: routing')
     g = M.members['getindex'].func
-    m = pmatch('(I1_[:, None] * self._sample2.npoints + I2_[None, :]).ravel()', resolved_return(g.node))
-    ok = m is not None and src(m['I1_']).startswith('self._sample1.getindex(') and src(m['I2_']).startswith('self._sample2.getindex(')
+    # decided on what the returned index expression denotes (sa.indexform): index1 * npoints2 + index2 over the axes (points1, points2), flattened
+    ok = _denotes(resolved_return(g.node), _leaf_calls({'self._sample1.getindex': ('I1', ('a',)), 'self._sample2.getindex': ('I2', ('b',))}),
+                  lambda A: V(A('I1') * A('self._sample2.npoints') + A('I2'), (('flat', 'a', 'b'),)))
     rep.ob('R09.1', g.key, g.where(), ok, 'point index = index1 * sample2.npoints + index2' if ok else '_Mul.getindex no longer strides by self._sample2.npoints', statement='getindex: stride')
     g = M.members['get_evaluable_indices'].func
     m = pmatch('evaluable.appendaxes(I1_ * self._sample2.npoints, I2_.shape) + evaluable.prependaxes(I2_, I1_.shape)', resolved_return(g.node))
@@ -230,17 +264,22 @@ def run(model, rep, tier):
         rep.ob('R09.1', f.key, f.where(), ok, 'elements below sample1.nelems belong to part 1, the rest to part 2 shifted by sample1.nelems' if ok else
                f'_Add.{name} splits or shifts the element index differently from its siblings', statement=f'{name}: split')
     g = Ad.members['getindex'].func
-    ok = '+ self._sample1.npoints' in src(g.node)
+    ok = any(_denotes(r.value, _leaf_calls({'self._sample2.getindex': ('G2', ('a',))}), lambda A: V(A('G2') + A('self._sample1.npoints'), ('a',)), names=_simple_bindings(g.node))
+             for r in ast.walk(g.node) if isinstance(r, ast.Return) and r.value is not None)
     rep.ob('R09.1', g.key, g.where(), ok, 'point indices of part 2 are shifted by sample1.npoints' if ok else '_Add.getindex no longer shifts point indices of the second part by sample1.npoints', statement='getindex: offset')
     for name in ('tri', 'hull'):
         f = Ad.members[name].func
-        ok = f'numpy.concatenate([self._sample1.{name}, self._sample2.{name} + self._sample1.npoints])' in src(f.node)
+        ok = _denotes(resolved_return(f.node), lambda n: None,
+                      lambda A: Concat([V(A(f'self._sample1.{name}')), V(A(f'self._sample2.{name}') + A('self._sample1.npoints'))]))
         rep.ob('R09.1', f.key, f.where(), ok, f'{name} of part 2 is shifted by sample1.npoints', statement=f'{name}: offset')
     f = Ad.members['take_elements'].func
     t = src(f.node)
     MK = 'numpy.less(__indices, self._sample1.nelems)'
-    m = pmatch('self._sample1.take_elements(__indices[M1_]) + self._sample2.take_elements(__indices[~M2_] - self._sample1.nelems)', resolved_return(f.node))
-    ok = m is not None and src(m['M1_']) == MK and src(m['M2_']) == MK
+    m = pmatch('self._sample1.take_elements(A_) + self._sample2.take_elements(B_)', resolved_return(f.node))
+    leaf = lambda n: ('__indices', ('i',)) if isinstance(n, ast.Name) and n.id == '__indices' else None
+    LT = 'lt(__indices,self._sample1.nelems)'
+    ok = m is not None and _denotes(m['A_'], leaf, lambda A: V(A(f'sel(__indices;{LT})'), (f'i|{LT}',))) and \
+        _denotes(m['B_'], leaf, lambda A: V(A(f'sel(__indices;not {LT})') - A('self._sample1.nelems'), (f'i|not {LT}',)))
     rep.ob('R09.1', f.key, f.where(), ok, 'take_elements splits at sample1.nelems like getindex', statement='take_elements: split')
     f = Ad.members['_integral'].func
     ok = 'self._sample1.integral(func) + self._sample2.integral(func)' in src(f.node)
